@@ -20,21 +20,30 @@ def _(self: Ref['mqtt.client.pubsubs.MQTTProtocol'], response: Ref['mqtt.pdu.PUB
     requires(is_obj(self.addr))
     requires(live(self) and ping_ok(self))
     requires(decoded_publish(response))
+    # the fields as received (entry values: the handler's frame does not promise to leave the packet object alone)
+    q = as_int(response.qos)
+    mid = response.msgId
+    topic = response.topic
+    payload = response.payload
+    dup = response.dup
+    retain = response.retain
     modifies(all_but(KEEP), callbacks())
     ensures(live(self))
     ensures(ping_untouched_by_handler(self))
     # QoS 0: delivered once, nothing written
-    ensures(implies(response.qos == 0, out(self) == old(out(self))))
+    ensures(implies(q == 0, out(self) == old(out(self))))
     # QoS 1: exactly one PUBACK echoing the identifier, delivered once
-    ensures(implies(response.qos == 1, out(self) == old(out(self)) + lb(sPUBACK(response.msgId))))
-    ensures(implies(response.qos == 0 or response.qos == 1,
-                    cb_appended(self.onPublish, response.topic, response.payload, response.qos, response.dup, response.retain, response.msgId)
+    ensures(implies(q == 1, out(self) == old(out(self)) + lb(sPUBACK(as_int(mid)))))
+    ensures(implies(q == 0 or q == 1,
+                    cb_appended(self.onPublish, topic, payload, q, dup, retain, mid)
                     if is_func(self.onPublish) else cb_unchanged()))
     # QoS 2: held until PUBREL, PUBREC echoing the identifier, NOT delivered yet
-    ensures(implies(response.qos == 2, out(self) == old(out(self)) + lb(sPUBREC(response.msgId)) and cb_unchanged()
-                    and contains(X(self), response.msgId) and X(self)[response.msgId] == response))
-    ensures(implies(response.qos == 3, out(self) == old(out(self)) and cb_unchanged()))
-    ensures(forall(lambda k: implies(not (response.qos == 2 and k == response.msgId),
+    ensures(implies(q == 2, out(self) == old(out(self)) + lb(sPUBREC(as_int(mid))) and cb_unchanged()
+                    and contains(X(self), as_int(mid)) and X(self)[as_int(mid)] == response))
+    ensures(implies(q == 2, response.qos == 2 and response.topic == topic and response.payload == payload and response.dup == dup
+                    and response.retain == retain and response.msgId == mid))
+    ensures(implies(q == 3, out(self) == old(out(self)) and cb_unchanged()))
+    ensures(forall(lambda k: implies(not (q == 2 and k == as_int(mid)),
                                      contains(X(self), k) == old(contains(X(self), k)) and X(self)[k] == old(X(self)[k]))))
 
 
